@@ -20,6 +20,7 @@ EXPLANATION = (
     "and normalises by the evidence weight whenever evidence is present; _set_value writes (w, zero) / (zero, w). Numerical agreement of back-ends "
     "and semirings is value-level and not decided."
     " Added after seed round 6: I6 every semiring whose plus is a true sum (a + b, log-sum-exp, '(%s + %s)') resolves is_dsp() to True, the flag by which get_evaluatable picks a compiled circuit."
+    " Added after seed round 7: I4 also forbids an early exit from a fold loop while an is_zero of the package compares with a tolerance."
 )
 TECHNIQUE = "static analysis: protocol conformance over the class hierarchy, sibling agreement of circuit folds, decision tables"
 LEVEL_TEXT = EXPLANATION
